@@ -388,7 +388,7 @@ func flowCorpus() (names []string, srcs []string) {
 }
 
 func flowPart(r *hlib.Run, l *loaded) {
-	nProg, nHist := 160, 24
+	nProg, nHist := 128, 16
 	if r.Thorough {
 		nProg, nHist = 4000, 48
 	}
@@ -482,7 +482,7 @@ func flowPart(r *hlib.Run, l *loaded) {
 		}
 	}
 	// the interpreter against the generated C (a sample of the programs)
-	nC := 12
+	nC := 8
 	if r.Thorough {
 		nC = 240
 	}
